@@ -190,7 +190,11 @@ class Ctx:
                   known_findings_seen=[k["signature"] for k in self.known_hits])
         if not cov["samples"]:
             cov["samples"] = ["(no sample recorded)"]
-        with open(os.path.join(VERIF, "evidence", "%s.json" % self.id), "w") as f:
+        evdir = os.path.join(VERIF, "evidence")
+        if os.environ.get("VERIF_REPO"):      # mutation trial against a scratch worktree: never evidence
+            evdir = "/tmp/verif-trial-evidence"
+            os.makedirs(evdir, exist_ok=True)
+        with open(os.path.join(evdir, "%s.json" % self.id), "w") as f:
             json.dump(ev, f, indent=1, default=str)
         shutil.rmtree(self.scratch, ignore_errors=True)
         for v in self.violations:
